@@ -26,6 +26,7 @@ SetName(p, n, v)  == Do([op |-> "SetName", p |-> p, n |-> n, v |-> v])
 SetIdx(p, n, i, v) == Do([op |-> "SetIdx", p |-> p, n |-> n, i |-> i, v |-> v])
 SetObjL(p, n, c)  == Do([op |-> "SetObj", p |-> p, n |-> n, c |-> c])
 SetAtL(p, i, v)   == Do([op |-> "SetAt", p |-> p, i |-> i, v |-> v])
+SetDeepL(p, n, v) == Do([op |-> "SetDeep", p |-> p, n |-> n, v |-> v])
 SetAtObjL(p, i, c) == Do([op |-> "SetAtObj", p |-> p, i |-> i, c |-> c])
 AddNewL(p, n)     == Do([op |-> "AddNew", p |-> p, n |-> n])
 AddObj(p, c)      == Do([op |-> "AddObj", p |-> p, c |-> c])
@@ -47,6 +48,7 @@ Next ==
   \/ \E p \in Parents, n \in Names, c \in Obj : SetObjL(p, n, c)
   \/ \E p \in Parents, i \in 1..MaxKids, v \in Vals : SetAtL(p, i, v)
   \/ \E p \in Parents, i \in 1..MaxKids, c \in Obj : SetAtObjL(p, i, c)
+  \/ \E p \in Parents, n \in Names, v \in Vals : SetDeepL(p, n, v)
   \/ \E p \in Parents, n \in Names : AddNewL(p, n)
   \/ \E p \in Parents, c \in Obj : AddObj(p, c) \/ Reparent(p, c) \/ RemoveL(p, c)
   \/ \E p \in Parents, i \in 1..(MaxKids + 1), c \in Obj : InsertL(p, i, c)
